@@ -346,7 +346,7 @@ def result(ob, status, **kw):
     return r
 
 
-def trace_obligation(env, ob, ctx, res, violated_fn, what):
+def trace_obligation(env, ob, ctx, res, violated_fn, what, cuts_ok=False):
     """Generic 'every feasible path satisfies P(events, ret)' obligation.  violated_fn(path, rv) -> None | (msg, extra_cond)
     extra_cond is an SMT term that must hold together with the path condition for the violation to be real."""
     cands, cuts = [], []
@@ -354,7 +354,8 @@ def trace_obligation(env, ob, ctx, res, violated_fn, what):
     for path, rv in res:
         n_paths += 1
         if path.cut:
-            cuts.append(path)
+            if not cuts_ok:      # cuts_ok: the loop bound is part of the stated claim, longer iterations are outside it
+                cuts.append(path)
             continue
         v = violated_fn(path, rv)
         if v:
@@ -1256,6 +1257,27 @@ def c09_alloc_dirty(env, ob):
                 return ("allocated_page_not_marked_dirty", ret_is_ok(rv))
             return None
         agg = merge(agg, trace_obligation(env, ob, ctx, res, bad, "allocate_page returns a page that was never marked dirty"))
+    return agg
+
+
+@obligation(id="C03.dml_never_removes_physically", also="C04,C06", funcs="DmlExecutor::insert,DmlExecutor::update,DmlExecutor::delete,DmlExecutor::maintain_secondary_indexes",
+            bounds="every path of the DML entry points and of the secondary-index maintenance (loops unrolled once)",
+            native="c03_rolled_back_delete_keeps_index_entry")
+def c03_no_physical_removal(env, ob):
+    """Rollback is visibility-only (nothing is undone in place), so DML must never physically take a tuple out of a table
+    or index tree: deletes are tombstones (Tuple::delete + Btree::update); only VACUUM removes."""
+    agg = None
+    for fn in ("insert", "update", "delete", "maintain_secondary_indexes"):
+        ctx, f, args, res = explore(env, "runtime/dml.rs", fn, sig=r"DmlExecutor", loop_bound=1)
+
+        def bad(path, rv, fn=fn):
+            if path.panics or rv is None:
+                return None
+            rm = [e for e in path.events if re.search(r"Btree::<.*>::(remove\w*|delete\w*|dealloc\w*|clear\w*)$", e["callee"])]
+            if rm:
+                return (f"dml_physically_removes_a_tuple@DmlExecutor::{fn}", None)
+            return None
+        agg = merge(agg, trace_obligation(env, ob, ctx, res, bad, "a DML path calls a physical removal on a B+tree", cuts_ok=True))
     return agg
 
 
